@@ -134,7 +134,8 @@ func (v *Val) Gallina(s *Shape) string {
 
 // caseEnv: the struct types registered for one case.
 type caseEnv struct {
-	known map[reflect.Type]*Shape // struct type and pointer to it -> shape of the struct
+	known map[reflect.Type]*Shape // struct type -> shape of the struct
+	ffmt  map[uint64]string       // fmt %v of the float keys of wrapped hashes (oracle table for the model)
 }
 
 // valueTerm converts a pcore value into a term of the model's `value`.
@@ -163,7 +164,12 @@ func (e *caseEnv) valueTerm(c px.Context, v px.Value) string {
 		return "(VArr " + lib.GList(es, "value") + ")"
 	case *types.Hash:
 		es := make([]string, 0, v.Len())
-		v.EachPair(func(k, x px.Value) { es = append(es, lib.GPair(e.valueTerm(c, k), e.valueTerm(c, x))) })
+		v.EachPair(func(k, x px.Value) {
+			if f, ok := k.(px.Float); ok {
+				e.ffmt[math.Float64bits(f.Float())] = fmt.Sprintf("%v", f.Float())
+			}
+			es = append(es, lib.GPair(e.valueTerm(c, k), e.valueTerm(c, x)))
+		})
 		return "(VHash " + lib.GList(es, "value * value") + ")"
 	case px.PuppetObject:
 		if r, ok := v.(px.Reflected); ok {
@@ -179,7 +185,8 @@ func (e *caseEnv) valueTerm(c px.Context, v px.Value) string {
 				if isPtr {
 					pv, ok = Unbuild(&Shape{K: "ptr", E: s}, rv, e.known)
 					if ok {
-						return "(VObj " + lib.GStr(v.PType().Name()) + " " + lib.GBool(rv.CanAddr()) + " " + pv.Gallina(&Shape{K: "ptr", E: s}) + ")"
+						// addressability only matters for a struct payload
+						return "(VObj " + lib.GStr(v.PType().Name()) + " false " + pv.Gallina(&Shape{K: "ptr", E: s}) + ")"
 					}
 				} else {
 					pv, ok = Unbuild(s, rv, e.known)
